@@ -1,11 +1,924 @@
-// Package c15 - correspondence harness for C15 (stub: not built yet).
+// Package c15 drives the real crl.FileCache (verifier/crl) with sequences of Set / Get
+// operations and explicit corruptions of stored entry files, over URL sets containing
+// near-identical, path-traversal shaped, very long and empty strings, with CRLs whose
+// NextUpdate lies before / after now (base and delta independently).
+//
+// Abstract input (Lean `C15.Input`): the URL table (text + the SHA-256 digest the harness
+// computed for it - the digest function of that run) and the operations. A corruption is
+// sent as a `plant` operation whose label (does it unmarshal; which bytes do the two
+// fields hold; do those bytes parse as a CRL and with which NextUpdate) comes from the
+// harness's own std-lib parse (encoding/json + x509.ParseRevocationList) of the bytes it
+// planted. DER byte strings are identified by a per-case registry id.
+//
+// Observation (Lean `C15.Obs`): per operation ok / err / miss / bundle(id of the base
+// bytes, id of the delta bytes), and at the end which entry files exist under the root,
+// how many other directory entries there are, whether every entry is a regular file with
+// a 64-hex name, and whether anything around the root changed.
 package c15
 
 import (
+	"context"
+	"crypto/rand"
+	"crypto/sha256"
+	"crypto/x509"
+	"crypto/x509/pkix"
+	"encoding/asn1"
+	"encoding/base64"
+	"encoding/hex"
+	"encoding/json"
+	"encoding/pem"
 	"errors"
+	"fmt"
+	"io/fs"
+	"math/big"
+	"os"
+	"path/filepath"
+	"strings"
+	"syscall"
+	"time"
 
+	corecrl "github.com/notaryproject/notation-core-go/revocation/crl"
+	"github.com/notaryproject/notation-go/verifier/crl"
 	"github.com/notaryproject/notation-go/xverif/common"
 )
 
+// ---- JSON shapes of Lean's Input / Obs ------------------------------------------------
+
+type CrlRef struct {
+	ID         int    `json:"id"`
+	Parses     bool   `json:"parses"`
+	NextUpdate *int64 `json:"nextUpdate"`
+}
+
+type Url struct {
+	Text   string `json:"text"`
+	Digest []int  `json:"digest"`
+}
+
+type Op struct {
+	Kind   string  `json:"kind"` // setNil | set | get | plant
+	Url    int     `json:"url"`
+	Base   *CrlRef `json:"base"`
+	Delta  *CrlRef `json:"delta"`
+	Now    int64   `json:"now"`
+	JsonOk bool    `json:"jsonOk"`
+	What   string  `json:"what"`
+}
+
+type Input struct {
+	Urls []Url `json:"urls"`
+	Ops  []Op  `json:"ops"`
+}
+
+type Out struct {
+	Res   string `json:"res"` // ok | err | bundle | miss | panic
+	Base  *int   `json:"base"`
+	Delta *int   `json:"delta"`
+}
+
+type Obs struct {
+	Results        []Out  `json:"results"`
+	Present        []bool `json:"present"`
+	Stray          int    `json:"stray"`
+	Files          int    `json:"files"`
+	AllHex         bool   `json:"allHex"`
+	OutsideChanged bool   `json:"outsideChanged"`
+}
+
+// mirror of fileCacheContent for the harness's own (trusted, std-lib) labelling parse
+type mirror struct {
+	BaseCRL  []byte `json:"baseCRL"`
+	DeltaCRL []byte `json:"deltaCRL,omitempty"`
+}
+
+// ---- CRL pool -------------------------------------------------------------------------
+
+const unknownID = 999999 // bytes returned by Get that the harness never saw
+
+// offsets of NextUpdate relative to the pool's reference time, in seconds; |offset| >= 75
+// while a pool lives at most maxPoolAge, so every margin exceeds 60 s.
+const maxPoolAge = 5 * time.Second
+
+type poolCRL struct {
+	name string
+	der  []byte
+	rl   *x509.RevocationList // what is handed to Set (hand-made for the garbage entry)
+}
+
+type pool struct {
+	t0   time.Time // truncated to the second; abstract time 0
+	crls []*poolCRL
+}
+
+const (
+	pFresh75a = iota
+	pFresh75b
+	pFresh3600
+	pFresh30d
+	pExp75a
+	pExp75b
+	pExp3600
+	pExp30d
+	pZeroNU
+	pGarbage
+	pDeltaFresh75
+	pDeltaExp75
+	poolSize
+)
+
+var poolOffsets = map[int]int64{pFresh75a: 75, pFresh75b: 75, pFresh3600: 3600, pFresh30d: 30 * 86400,
+	pExp75a: -75, pExp75b: -75, pExp3600: -3600, pExp30d: -30 * 86400, pDeltaFresh75: 75, pDeltaExp75: -75}
+
+var poolNames = []string{"fresh75a", "fresh75b", "fresh3600", "fresh30d", "exp75a", "exp75b", "exp3600", "exp30d",
+	"zeroNU", "garbage", "deltaFresh75", "deltaExp75"}
+
+var oidDeltaCRLIndicator = asn1.ObjectIdentifier{2, 5, 29, 27}
+
+func mintPool(ca *common.Cert) *pool {
+	p := &pool{t0: time.Now().Truncate(time.Second)}
+	for i := 0; i < poolSize; i++ {
+		pc := &poolCRL{name: poolNames[i]}
+		switch i {
+		case pZeroNU:
+			// x509.CreateRevocationList refuses a zero NextUpdate; the deprecated CreateCRL
+			// omits the optional field, and ParseRevocationList then yields the zero time.
+			der, err := ca.Cert.CreateCRL(rand.Reader, ca.Key, nil, p.t0.Add(-time.Hour), time.Time{})
+			if err != nil {
+				panic(err)
+			}
+			pc.der = der
+		case pGarbage:
+			pc.der = []byte("0\x82this is not a certificate revocation list at all")
+			pc.rl = &x509.RevocationList{Raw: pc.der}
+		default:
+			off := poolOffsets[i]
+			nu := p.t0.Add(time.Duration(off) * time.Second)
+			this := p.t0.Add(-time.Hour)
+			if nu.Before(this) {
+				this = nu.Add(-time.Hour)
+			}
+			t := &x509.RevocationList{Number: big.NewInt(int64(100 + i)), ThisUpdate: this, NextUpdate: nu,
+				RevokedCertificateEntries: []x509.RevocationListEntry{{SerialNumber: big.NewInt(int64(7000 + i)), RevocationTime: this}}}
+			if i == pDeltaFresh75 || i == pDeltaExp75 {
+				v, _ := asn1.Marshal(big.NewInt(100))
+				t.ExtraExtensions = []pkix.Extension{{Id: oidDeltaCRLIndicator, Critical: true, Value: v}}
+			}
+			der, err := x509.CreateRevocationList(rand.Reader, t, ca.Cert, ca.Key)
+			if err != nil {
+				panic(err)
+			}
+			pc.der = der
+		}
+		if pc.rl == nil {
+			rl, err := x509.ParseRevocationList(pc.der)
+			if err != nil {
+				panic(fmt.Sprintf("pool CRL %s does not parse: %v", pc.name, err))
+			}
+			pc.rl = rl
+		}
+		p.crls = append(p.crls, pc)
+	}
+	if !p.crls[pZeroNU].rl.NextUpdate.IsZero() {
+		panic("zero-NextUpdate CRL could not be minted")
+	}
+	return p
+}
+
+// ---- per-case world -------------------------------------------------------------------
+
+type world struct {
+	dir, root string
+	cache     *crl.FileCache
+	p         *pool
+	reg       map[string]int // DER bytes -> id (per case, in order of first appearance)
+	refs      map[int]CrlRef
+	site      *site
+}
+
+func (w *world) ref(der []byte) *CrlRef {
+	id, ok := w.reg[string(der)]
+	if !ok {
+		id = len(w.reg)
+		w.reg[string(der)] = id
+		r := CrlRef{ID: id}
+		if rl, err := x509.ParseRevocationList(der); err == nil {
+			r.Parses = true
+			if !rl.NextUpdate.IsZero() {
+				nu := rl.NextUpdate.Unix() - w.p.t0.Unix()
+				r.NextUpdate = &nu
+			}
+		}
+		w.refs[id] = r
+	}
+	r := w.refs[id]
+	return &r
+}
+
+func (w *world) idOf(der []byte) *int {
+	id, ok := w.reg[string(der)]
+	if !ok {
+		id = unknownID
+	}
+	return &id
+}
+
+func digestInts(s string) []int {
+	h := sha256.Sum256([]byte(s))
+	out := make([]int, len(h))
+	for i, b := range h {
+		out[i] = int(b)
+	}
+	return out
+}
+
+func hexName(s string) string {
+	h := sha256.Sum256([]byte(s))
+	return hex.EncodeToString(h[:])
+}
+
+func snapshot(dir, exclude string) map[string]string {
+	m := map[string]string{}
+	filepath.WalkDir(dir, func(path string, d fs.DirEntry, err error) error {
+		if err != nil {
+			m[path] = "error:" + err.Error()
+			return nil
+		}
+		info, ierr := d.Info()
+		if ierr != nil {
+			m[path] = "error:" + ierr.Error()
+			return nil
+		}
+		if path == exclude {
+			m[path] = "root:" + info.Mode().String()
+			return fs.SkipDir
+		}
+		if d.IsDir() {
+			m[path] = "dir:" + info.Mode().String()
+			return nil
+		}
+		b, _ := os.ReadFile(path)
+		m[path] = fmt.Sprintf("file:%s:%d:%x", info.Mode(), info.Size(), sha256.Sum256(b))
+		return nil
+	})
+	return m
+}
+
+func sameSnapshot(a, b map[string]string) bool {
+	if len(a) != len(b) {
+		return false
+	}
+	for k, v := range a {
+		if b[k] != v {
+			return false
+		}
+	}
+	return true
+}
+
+func must(err error) {
+	if err != nil {
+		panic(err)
+	}
+}
+
+// site is the directory tree around the cache root, built once and checked after every case:
+//   dir/{etc/passwd, b, outer/{victim.txt, b, sibling/keep, cache/}}
+// so that every traversal-shaped URL, were it used as a path, would hit a sentinel.
+// (Creating and deleting the whole tree per case costs milliseconds on this file system; the
+// root is emptied after every case.)
+type site struct {
+	dir, root string
+	before    map[string]string // full snapshot: every path with mode, size and content hash
+	stamp     string            // cheap snapshot: inode, mode, size, mtime, ctime, nlink of every directory and sentinel
+	cases     int
+}
+
+// stampOf lstat()s the directories and sentinel files around the root. Any creation, removal or
+// rename in a directory changes that directory's mtime/ctime, any write to a file changes the
+// file's, so an unchanged stamp means an unchanged tree; the root itself (whose mtime changes
+// with every entry written) contributes only its inode and mode.
+func (s *site) stampOf() string {
+	var b strings.Builder
+	outer := filepath.Dir(s.root)
+	for _, p := range []string{s.dir, filepath.Join(s.dir, "etc"), filepath.Join(s.dir, "etc", "passwd"), filepath.Join(s.dir, "b"),
+		outer, filepath.Join(outer, "b"), filepath.Join(outer, "victim.txt"), filepath.Join(outer, "sibling"), filepath.Join(outer, "sibling", "keep")} {
+		fi, err := os.Lstat(p)
+		if err != nil {
+			fmt.Fprintf(&b, "%s:error;", p)
+			continue
+		}
+		st := fi.Sys().(*syscall.Stat_t)
+		fmt.Fprintf(&b, "%d:%o:%d:%d.%d:%d.%d:%d;", st.Ino, st.Mode, st.Size, st.Mtim.Sec, st.Mtim.Nsec, st.Ctim.Sec, st.Ctim.Nsec, st.Nlink)
+	}
+	if fi, err := os.Lstat(s.root); err == nil {
+		fmt.Fprintf(&b, "root:%d:%o", fi.Sys().(*syscall.Stat_t).Ino, fi.Sys().(*syscall.Stat_t).Mode)
+	} else {
+		b.WriteString("root:error")
+	}
+	return b.String()
+}
+
+// changed: the cheap comparison after every case, the full one (walk + content hashes) every
+// 256 cases and whenever the cheap one sees a difference.
+func (s *site) changed() bool {
+	s.cases++
+	if s.stampOf() != s.stamp {
+		return true
+	}
+	if s.cases%256 == 0 {
+		return !sameSnapshot(s.before, snapshot(s.dir, s.root))
+	}
+	return false
+}
+
+func newSite(c *common.Ctx, n int) *site {
+	dir := filepath.Join(c.WorkDir, fmt.Sprintf("c15-%d", n))
+	outer := filepath.Join(dir, "outer")
+	root := filepath.Join(outer, "cache")
+	must(os.MkdirAll(filepath.Join(dir, "etc"), 0o755))
+	must(os.MkdirAll(filepath.Join(outer, "sibling"), 0o755))
+	must(os.WriteFile(filepath.Join(dir, "etc", "passwd"), []byte("sentinel passwd"), 0o644))
+	must(os.WriteFile(filepath.Join(dir, "b"), []byte("sentinel b"), 0o644))
+	must(os.WriteFile(filepath.Join(outer, "b"), []byte("sentinel outer b"), 0o644))
+	must(os.WriteFile(filepath.Join(outer, "victim.txt"), []byte("sentinel victim"), 0o644))
+	must(os.WriteFile(filepath.Join(outer, "sibling", "keep"), []byte("sentinel keep"), 0o644))
+	must(os.MkdirAll(root, 0o700))
+	s := &site{dir: dir, root: root}
+	s.before = snapshot(dir, root)
+	s.stamp = s.stampOf()
+	return s
+}
+
+func newWorld(s *site, p *pool) *world {
+	fc, err := crl.NewFileCache(s.root)
+	must(err)
+	w := &world{site: s, dir: s.dir, root: s.root, cache: fc, p: p, reg: map[string]int{}, refs: map[int]CrlRef{}}
+	for _, pc := range p.crls {
+		w.ref(pc.der)
+	}
+	return w
+}
+
+// ---- corruptions ----------------------------------------------------------------------
+
+type corruption struct {
+	name string
+	arg  int
+}
+
+var foreignDocs = []string{
+	`{"foo":1}`,
+	`[]`,
+	`"just a string"`,
+	`null`,
+	`{"baseCRL":123}`,
+	`{"baseCRL":"!!not base64!!"}`,
+	`{"version":"1.0","trustPolicies":[{"name":"p","registryScopes":["*"]}]}`,
+	`{"baseCRL":{"raw":"AAAA"}}`,
+	`{}`,
+	"\x00\x01\x02\xff\xfe",
+}
+
+// all corruptions, for the systematic matrix
+func allCorruptions() []corruption {
+	var out []corruption
+	for a := 0; a < 6; a++ {
+		out = append(out, corruption{"truncate", a})
+	}
+	for a := 0; a < 5; a++ {
+		out = append(out, corruption{"flipraw", a})
+	}
+	for a := 0; a < 3; a++ {
+		out = append(out, corruption{"flipder", a})
+	}
+	out = append(out, corruption{"swap", 0})
+	for a := range foreignDocs {
+		out = append(out, corruption{"foreign", a})
+	}
+	for a := 0; a < 6; a++ {
+		out = append(out, corruption{"garbageder", a})
+	}
+	for a := 0; a < 4; a++ {
+		out = append(out, corruption{"replace", a})
+	}
+	out = append(out, corruption{"dupkeys", 0}, corruption{"dupkeys", 1})
+	for a := 0; a < 4; a++ {
+		out = append(out, corruption{"trailing", a})
+	}
+	out = append(out, corruption{"casekeys", 0})
+	return out
+}
+
+func b64(b []byte) string { return base64.StdEncoding.EncodeToString(b) }
+
+func entryJSON(base, delta []byte) []byte {
+	b, err := json.Marshal(mirror{BaseCRL: base, DeltaCRL: delta})
+	must(err)
+	return b
+}
+
+// apply computes the corrupted bytes from the current content of the entry file.
+func (w *world) apply(c *common.Ctx, co corruption, cur []byte) []byte {
+	p := w.p.crls
+	var m mirror
+	json.Unmarshal(cur, &m) // cur is a well-formed or previously corrupted entry; best effort
+	switch co.name {
+	case "truncate":
+		offs := []int{0, 1, 12, len(cur) / 2, len(cur) - 2, len(cur) - 1}
+		o := offs[co.arg%len(offs)]
+		if o < 0 {
+			o = 0
+		}
+		if o > len(cur) {
+			o = len(cur)
+		}
+		return append([]byte{}, cur[:o]...)
+	case "flipraw":
+		out := append([]byte{}, cur...)
+		if len(out) == 0 {
+			return []byte("{")
+		}
+		off, bit := 0, 0
+		switch co.arg % 5 {
+		case 0:
+			off, bit = 0, 0 // '{'
+		case 1:
+			off, bit = 2, 5 // 'b' -> 'B': encoding/json matches keys case-insensitively
+		case 2:
+			off, bit = 2, 0 // 'b' -> 'c': unknown key, BaseCRL stays nil
+		case 3:
+			off, bit = len(out)-1, 0 // '}'
+		case 4:
+			off, bit = c.Rand.Intn(len(out)), c.Rand.Intn(8)
+		}
+		if off >= len(out) {
+			off = len(out) - 1
+		}
+		out[off] ^= 1 << bit
+		return out
+	case "flipder":
+		base, delta := append([]byte{}, m.BaseCRL...), m.DeltaCRL
+		if len(base) == 0 {
+			base = append([]byte{}, p[pFresh75a].der...)
+		}
+		switch co.arg % 3 {
+		case 0:
+			base[len(base)-1] ^= 1 // inside the signature bits: still parses, other bytes
+		case 1:
+			base[0] ^= 1 // SEQUENCE tag destroyed
+		case 2:
+			if len(delta) > 0 {
+				delta = append([]byte{}, delta...)
+				delta[len(delta)-1] ^= 1
+			} else {
+				base[len(base)-2] ^= 0x80
+			}
+		}
+		return entryJSON(base, delta)
+	case "swap":
+		// baseCRL <-> deltaCRL (a missing delta leaves the entry without a base)
+		if m.DeltaCRL == nil {
+			return []byte(`{"deltaCRL":"` + b64(m.BaseCRL) + `"}`)
+		}
+		return []byte(`{"baseCRL":"` + b64(m.DeltaCRL) + `","deltaCRL":"` + b64(m.BaseCRL) + `"}`)
+	case "foreign":
+		return []byte(foreignDocs[co.arg%len(foreignDocs)])
+	case "garbageder":
+		base := m.BaseCRL
+		if len(base) == 0 {
+			base = p[pFresh75a].der
+		}
+		switch co.arg % 6 {
+		case 0:
+			return []byte(`{"baseCRL":"` + b64([]byte("garbage, not DER")) + `"}`)
+		case 1:
+			return []byte(`{"baseCRL":"` + b64(base) + `","deltaCRL":"` + b64([]byte{0x30, 0x03, 0x02, 0x01}) + `"}`)
+		case 2:
+			return []byte(`{"baseCRL":"` + b64(base) + `","deltaCRL":""}`) // empty, non-nil delta
+		case 3:
+			return []byte(`{"baseCRL":"` + b64(base) + `","deltaCRL":null}`) // nil delta: fine
+		case 4:
+			return []byte(`{"baseCRL":"` + b64(pem.EncodeToMemory(&pem.Block{Type: "X509 CRL", Bytes: base})) + `"}`)
+		default:
+			return []byte(`{"baseCRL":"","deltaCRL":"` + b64(base) + `"}`)
+		}
+	case "replace":
+		// another writer stores a well-formed entry in a different layout
+		switch co.arg % 4 {
+		case 0:
+			b, _ := json.MarshalIndent(mirror{BaseCRL: p[pFresh3600].der}, "", "  ")
+			return b
+		case 1:
+			return []byte(`{"deltaCRL":"` + b64(p[pDeltaFresh75].der) + `", "baseCRL":"` + b64(p[pFresh75b].der) + `"}`)
+		case 2:
+			return entryJSON(p[pExp3600].der, nil)
+		default:
+			return entryJSON(p[pFresh30d].der, p[pDeltaExp75].der)
+		}
+	case "dupkeys":
+		a, b := p[pExp75a].der, p[pFresh75b].der
+		if co.arg%2 == 1 {
+			a, b = b, a
+		}
+		return []byte(`{"baseCRL":"` + b64(a) + `","baseCRL":"` + b64(b) + `"}`) // the last one wins
+	case "trailing":
+		switch co.arg % 4 {
+		case 0:
+			return append(append([]byte{}, cur...), '\n')
+		case 1:
+			return append(append([]byte{}, cur...), 'x')
+		case 2:
+			return append(append([]byte{}, cur...), cur...)
+		default:
+			return append([]byte("\xef\xbb\xbf"), cur...) // byte order mark
+		}
+	case "casekeys":
+		if m.DeltaCRL == nil {
+			return []byte(`{"BASECRL":"` + b64(m.BaseCRL) + `"}`)
+		}
+		return []byte(`{"BASECRL":"` + b64(m.BaseCRL) + `","DeltaCrl":"` + b64(m.DeltaCRL) + `"}`)
+	}
+	panic("unknown corruption " + co.name)
+}
+
+// label: what the std-lib makes of planted bytes.
+func (w *world) label(b []byte) (jsonOk bool, base, delta *CrlRef) {
+	var m mirror
+	if err := json.Unmarshal(b, &m); err != nil {
+		return false, nil, nil
+	}
+	base = w.ref(m.BaseCRL)
+	if m.DeltaCRL != nil {
+		delta = w.ref(m.DeltaCRL)
+	}
+	return true, base, delta
+}
+
+func tooClose(r *CrlRef) bool {
+	return r != nil && r.Parses && r.NextUpdate != nil && *r.NextUpdate > -60 && *r.NextUpdate < 60
+}
+
+// ---- plans ----------------------------------------------------------------------------
+
+type planOp struct {
+	kind        string // setNil | set | get | plant
+	url         int
+	base, delta int // pool indices, -1 = nil
+	co          corruption
+}
+
+type plan struct {
+	urls []string
+	ops  []planOp
+}
+
+func (w *world) execute(c *common.Ctx, pl plan) (Input, Obs) {
+	ctx := context.Background()
+	in := Input{Urls: []Url{}, Ops: []Op{}}
+	obs := Obs{Results: []Out{}, Present: []bool{}}
+	for _, u := range pl.urls {
+		in.Urls = append(in.Urls, Url{Text: u, Digest: digestInts(u)})
+	}
+	for _, po := range pl.ops {
+		url := pl.urls[po.url]
+		op := Op{Kind: po.kind, Url: po.url}
+		var out Out
+		switch po.kind {
+		case "setNil":
+			out.Res = w.set(ctx, url, nil)
+		case "set":
+			b := &corecrl.Bundle{}
+			what := "set"
+			if po.base >= 0 {
+				b.BaseCRL = w.p.crls[po.base].rl
+				op.Base = w.ref(w.p.crls[po.base].der)
+				what += " base=" + w.p.crls[po.base].name
+			}
+			if po.delta >= 0 {
+				b.DeltaCRL = w.p.crls[po.delta].rl
+				op.Delta = w.ref(w.p.crls[po.delta].der)
+				what += " delta=" + w.p.crls[po.delta].name
+			}
+			op.What = what
+			out.Res = w.set(ctx, url, b)
+		case "get":
+			bundle, err, panicked := w.get(ctx, url)
+			switch {
+			case panicked:
+				out.Res = "panic"
+			case err == nil && bundle != nil && bundle.BaseCRL != nil:
+				out.Res = "bundle"
+				out.Base = w.idOf(bundle.BaseCRL.Raw)
+				if bundle.DeltaCRL != nil {
+					out.Delta = w.idOf(bundle.DeltaCRL.Raw)
+				}
+			case err == nil:
+				out.Res = "bundle" // success without a usable bundle: never what the model says
+				id := unknownID
+				out.Base = &id
+			case errors.Is(err, corecrl.ErrCacheMiss):
+				out.Res = "miss"
+			default:
+				out.Res = "err"
+			}
+			c.Count("get=" + out.Res)
+		case "plant":
+			path := filepath.Join(w.root, hexName(url))
+			cur, err := os.ReadFile(path)
+			if err != nil {
+				// nothing stored under this URL: corrupt the entry a Set would have written
+				var d []byte
+				if po.delta >= 0 {
+					d = w.p.crls[po.delta].der
+				}
+				base := po.base
+				if base < 0 {
+					base = pFresh75a
+				}
+				cur = entryJSON(w.p.crls[base].der, d)
+			}
+			nb := w.apply(c, po.co, cur)
+			ok, base, delta := w.label(nb)
+			what := fmt.Sprintf("%s/%d", po.co.name, po.co.arg)
+			if tooClose(base) || tooClose(delta) {
+				// a corruption moved a NextUpdate to within a minute of now: not decidable by wall clock
+				nb = []byte(foreignDocs[0])
+				ok, base, delta = w.label(nb)
+				what += "->foreign/0"
+			}
+			must(os.WriteFile(path, nb, 0o600))
+			op.JsonOk, op.Base, op.Delta, op.What = ok, base, delta, what
+			out.Res = "ok"
+			c.Count("corruption=" + po.co.name)
+			if !ok {
+				c.Count("planted=not-json")
+			} else if !base.Parses || (delta != nil && !delta.Parses) {
+				c.Count("planted=json-but-bad-der")
+			} else {
+				c.Count("planted=decodes")
+			}
+		}
+		c.Count("op=" + po.kind)
+		in.Ops = append(in.Ops, op)
+		obs.Results = append(obs.Results, out)
+	}
+	// final state of the root and its surroundings
+	names := map[string]bool{}
+	for _, u := range pl.urls {
+		n := hexName(u)
+		names[n] = true
+		fi, err := os.Lstat(filepath.Join(w.root, n))
+		obs.Present = append(obs.Present, err == nil && fi.Mode().IsRegular())
+	}
+	entries, err := os.ReadDir(w.root)
+	must(err)
+	obs.AllHex = true
+	for _, e := range entries {
+		obs.Files++
+		if !names[e.Name()] {
+			obs.Stray++
+		}
+		if !e.Type().IsRegular() || !is64Hex(e.Name()) {
+			obs.AllHex = false
+		}
+	}
+	obs.OutsideChanged = w.site.changed()
+	if !obs.OutsideChanged {
+		// empty the root for the next case (a damaged site is rebuilt by the caller)
+		for _, e := range entries {
+			os.RemoveAll(filepath.Join(w.root, e.Name()))
+		}
+	}
+	return in, obs
+}
+
+// set / get call the real cache; a panic is reported as its own result kind
+func (w *world) set(ctx context.Context, url string, b *corecrl.Bundle) (res string) {
+	defer func() {
+		if r := recover(); r != nil {
+			res = "panic"
+		}
+	}()
+	return resOf(w.cache.Set(ctx, url, b))
+}
+
+func (w *world) get(ctx context.Context, url string) (b *corecrl.Bundle, err error, panicked bool) {
+	defer func() {
+		if r := recover(); r != nil {
+			panicked = true
+		}
+	}()
+	b, err = w.cache.Get(ctx, url)
+	return
+}
+
+func is64Hex(s string) bool {
+	if len(s) != 64 {
+		return false
+	}
+	for _, r := range s {
+		if !strings.ContainsRune("0123456789abcdef", r) {
+			return false
+		}
+	}
+	return true
+}
+
+func resOf(err error) string {
+	if err == nil {
+		return "ok"
+	}
+	return "err"
+}
+
+// ---- URL catalogue --------------------------------------------------------------------
+
+var nearURLs = []string{"http://a/crl", "http://a/crl/", "http://A/crl", "http://a/crl ", " http://a/crl",
+	"http://a/crl?x=1", "http://a/crl#", "http://a//crl", "http://a/crl\n", "http://а/crl", "HTTP://a/crl", "http://a/crl\x00"}
+
+var traversalURLs = []string{"../../etc/passwd", "/abs/path", "a/../../b", "..", ".", "/", "../victim.txt", "../sibling/keep",
+	"..\\..\\etc\\passwd", "notation-123456", "%2e%2e%2fvictim.txt", "./x", "../../../../../../../../etc/passwd", "sibling/../../b"}
+
+func longURLs() []string {
+	a := strings.Repeat("a", 10000)
+	return []string{a, a + "b", "http://a/" + strings.Repeat("../", 3400), strings.Repeat("/", 10000)}
+}
+
+type gen struct {
+	c       *common.Ctx
+	ca      *common.Cert
+	p       *pool
+	n       int
+	site    *site
+	long    []string
+	special []string
+}
+
+func (g *gen) pool() *pool {
+	if g.p == nil || time.Since(g.p.t0) > maxPoolAge {
+		g.p = mintPool(g.ca)
+		g.c.Count("pool-minted")
+	}
+	return g.p
+}
+
+func (g *gen) run(pl plan, family string) {
+	if g.site == nil {
+		g.site = newSite(g.c, g.n)
+		g.n++
+	}
+	w := newWorld(g.site, g.pool())
+	in, obs := w.execute(g.c, pl)
+	g.c.Emit(in, obs)
+	g.c.Count("cases=" + family)
+	if obs.OutsideChanged {
+		os.RemoveAll(g.site.dir) // the surroundings were damaged: start from a clean tree
+		g.site = nil
+	}
+}
+
+func (g *gen) pickURLs() []string {
+	r := g.c.Rand
+	seen := map[string]bool{}
+	var out []string
+	add := func(s string) {
+		if !seen[s] {
+			seen[s] = true
+			out = append(out, s)
+		}
+	}
+	for i, n := 0, 1+r.Intn(3); i < n; i++ {
+		add(nearURLs[r.Intn(len(nearURLs))])
+	}
+	for i, n := 0, r.Intn(3); i < n; i++ {
+		add(traversalURLs[r.Intn(len(traversalURLs))])
+	}
+	if r.Intn(40) == 0 {
+		add(g.long[r.Intn(len(g.long))])
+		g.c.Count("url=long")
+	}
+	if r.Intn(5) == 0 {
+		add(g.special[r.Intn(len(g.special))])
+	}
+	if len(out) < 2 {
+		add(traversalURLs[r.Intn(len(traversalURLs))])
+		add(nearURLs[0])
+	}
+	return out
+}
+
+func (g *gen) randomCase() plan {
+	r := g.c.Rand
+	pl := plan{urls: g.pickURLs()}
+	cos := allCorruptions()
+	pickCRL := func() int {
+		if r.Intn(3) == 0 {
+			return r.Intn(poolSize)
+		}
+		// mostly parseable CRLs with a NextUpdate
+		return []int{pFresh75a, pFresh75b, pFresh3600, pFresh30d, pExp75a, pExp75b, pExp3600, pDeltaFresh75, pDeltaExp75}[r.Intn(9)]
+	}
+	for i, n := 0, 3+r.Intn(10); i < n; i++ {
+		u := r.Intn(len(pl.urls))
+		switch x := r.Intn(100); {
+		case x < 35:
+			d := -1
+			if r.Intn(5) < 2 {
+				d = pickCRL()
+			}
+			pl.ops = append(pl.ops, planOp{kind: "set", url: u, base: pickCRL(), delta: d})
+		case x < 38:
+			pl.ops = append(pl.ops, planOp{kind: "setNil", url: u})
+		case x < 41:
+			pl.ops = append(pl.ops, planOp{kind: "set", url: u, base: -1, delta: pickCRL()})
+		case x < 58:
+			d := -1
+			if r.Intn(2) == 0 {
+				d = pickCRL()
+			}
+			pl.ops = append(pl.ops, planOp{kind: "plant", url: u, base: pickCRL(), delta: d, co: cos[r.Intn(len(cos))]})
+		default:
+			pl.ops = append(pl.ops, planOp{kind: "get", url: u})
+		}
+	}
+	for u := range pl.urls {
+		pl.ops = append(pl.ops, planOp{kind: "get", url: u})
+	}
+	return pl
+}
+
 // Run generates the cases of C15.
-func Run(c *common.Ctx) error { return errors.New("C15: harness not built yet") }
+func Run(c *common.Ctx) error {
+	g := &gen{c: c, ca: common.MakeCert(common.CertOpts{Subject: common.Name("C15 CRL issuer"), CA: true, PathLen: -1,
+		KeyUsage: x509.KeyUsageCertSign | x509.KeyUsageCRLSign}), long: longURLs()}
+	g.special = []string{"", hexName("http://a/crl"), filepath.Join("..", "cache", hexName("http://a/crl")), "http://a/crl"}
+
+	// A. every (base, delta) combination of the pool, stored and read back; a sibling URL stays a miss
+	for b := 0; b < poolSize; b++ {
+		for d := -1; d < poolSize; d++ {
+			g.run(plan{urls: []string{"http://a/crl", "http://a/crl/"}, ops: []planOp{
+				{kind: "get", url: 0}, {kind: "set", url: 0, base: b, delta: d}, {kind: "get", url: 0}, {kind: "get", url: 1}}}, "A:base-x-delta")
+		}
+	}
+	// B. every corruption of a stored entry, then recovery by a fresh Set
+	entries := [][2]int{{pFresh75a, -1}, {pFresh3600, pDeltaFresh75}, {pExp75a, -1}, {pFresh75b, pDeltaExp75}}
+	for _, co := range allCorruptions() {
+		for _, e := range entries {
+			g.run(plan{urls: []string{"http://a/crl", "http://A/crl"}, ops: []planOp{
+				{kind: "set", url: 0, base: e[0], delta: e[1]}, {kind: "set", url: 1, base: pFresh30d, delta: -1},
+				{kind: "plant", url: 0, base: e[0], delta: e[1], co: co}, {kind: "get", url: 0}, {kind: "get", url: 1},
+				{kind: "set", url: 0, base: pFresh75b, delta: -1}, {kind: "get", url: 0}}}, "B:corruption-matrix")
+		}
+		// the same corruption planted where nothing was ever stored
+		g.run(plan{urls: []string{"../../etc/passwd", "http://a/crl"}, ops: []planOp{
+			{kind: "plant", url: 0, base: pFresh75a, delta: pDeltaFresh75, co: co}, {kind: "get", url: 0}, {kind: "get", url: 1}}}, "B:corruption-unset")
+	}
+	// C. every pair of catalogue URLs: isolation, last write wins, nil rejected without effect
+	var cat []string
+	cat = append(cat, nearURLs...)
+	cat = append(cat, traversalURLs...)
+	cat = append(cat, g.special[:3]...)
+	pairs := 0
+	for i := range cat {
+		for j := range cat {
+			if i == j {
+				continue
+			}
+			if !c.Thorough() && (i+j)%3 != 0 {
+				continue // a third of the ordered pairs in the quick tier
+			}
+			g.run(plan{urls: []string{cat[i], cat[j]}, ops: []planOp{
+				{kind: "set", url: 0, base: pFresh75a, delta: -1}, {kind: "get", url: 1},
+				{kind: "set", url: 1, base: pFresh75b, delta: pDeltaFresh75}, {kind: "get", url: 0}, {kind: "get", url: 1},
+				{kind: "set", url: 0, base: pExp75a, delta: -1}, {kind: "get", url: 1}, {kind: "get", url: 0},
+				{kind: "setNil", url: 1}, {kind: "set", url: 1, base: -1, delta: pFresh75a}, {kind: "get", url: 1},
+				{kind: "set", url: 0, base: pFresh3600, delta: pDeltaExp75}, {kind: "get", url: 0},
+				{kind: "set", url: 0, base: pFresh3600, delta: -1}, {kind: "get", url: 0}}}, "C:url-pairs")
+			pairs++
+		}
+	}
+	// D. the very long URLs, each against each other and a short one
+	for i := range g.long {
+		j := (i + 1) % len(g.long)
+		g.run(plan{urls: []string{g.long[i], g.long[j], "http://a/crl"}, ops: []planOp{
+			{kind: "set", url: 0, base: pFresh75a, delta: pDeltaFresh75}, {kind: "get", url: 1}, {kind: "get", url: 2},
+			{kind: "set", url: 1, base: pFresh75b, delta: -1}, {kind: "get", url: 0}, {kind: "get", url: 1},
+			{kind: "plant", url: 0, base: pFresh75a, delta: -1, co: corruption{"truncate", 3}}, {kind: "get", url: 0}, {kind: "get", url: 1}}}, "D:long-urls")
+	}
+	// E. random operation sequences
+	n := 2500
+	if c.Thorough() {
+		n = 25000
+	}
+	for i := 0; i < n; i++ {
+		g.run(g.randomCase(), "E:random-sequences")
+	}
+	c.Note("real crl.NewFileCache on an empty root directory per case inside a tree of sentinel files whose lstat stamps (inode, mode, size, mtime, ctime, nlink; directories included) are compared after every case and whose full content snapshot every 256 cases; CRLs minted with x509.CreateRevocationList "+
+		"(zero NextUpdate via the deprecated CreateCRL; a hand-made RevocationList with garbage Raw as the unparseable one), NextUpdate at "+
+		"-30d/-1h/-75s/+75s/+1h/+30d relative to a pool re-minted every %s, abstract now = 0; %d pool base x delta combinations, %d corruptions "+
+		"x 4 stored entries + unset, %d ordered URL pairs, %d random sequences of 3-12 operations followed by a Get of every URL. "+
+		"Corruption labels come from the harness's own json.Unmarshal + x509.ParseRevocationList of the planted bytes. "+
+		"The digest sent with every URL is crypto/sha256 of its bytes: the model's digest function for the run.",
+		maxPoolAge, poolSize*(poolSize+1), len(allCorruptions()), pairs, n)
+	return nil
+}
